@@ -73,6 +73,14 @@ def h(t, part):
                         if x[1] in ('mgr.is_connected', 'mgr.can_disconnect') and S in x[2] and exec_at[j] < first_mark}
             if len(checkers) >= 2:
                 mode, pair = 'double-pass-before-mark', 'any'
+                # on the unchanged tree the check and the mark are adjacent calls in each thread; anything a thread
+                # does in between widens the window and is a different defect
+                for th in checkers:
+                    mine = [x for x in tr if x[0] == th]
+                    ci = next((i for i, x in enumerate(mine) if x[1] in ('mgr.is_connected', 'mgr.can_disconnect') and S in x[2]), None)
+                    mi = next((i for i, x in enumerate(mine) if x[1] == 'mgr.pre_disconnect' and S in x[2]), None)
+                    if ci is not None and mi is not None and mi > ci + 1:
+                        pair = 'gap=' + '+'.join(x[1] for x in mine[ci + 1:mi])
     if sched.over_budget:
         return Fail('race:schedule-bound-exceeded', 'more than %d decisions' % sched.max_decisions)
     if sched.stuck:
